@@ -146,10 +146,11 @@ def emul_full_expr(e, l, my_eip, env, machine):
             my_edi = machine.eval_expr(machine.pool[edi], {})
             if expr_depth(my_edi) > 100:
                 raise ValueError('Emulation fails for "%s". EDI value is too complicated' % l)
-            tmp,mem_dst =  emul_expr(machine, e, my_eip)
             if my_ecx.arg > 0x1000:
-                # This is not a valid emulation, but we don't want to loop forever
-                break
+                # We don't want to loop forever
+                raise ValueError('Emulation fails for "%s". ECX value is too large: %s'
+                    % (l, str(my_ecx)))
+            tmp,mem_dst =  emul_expr(machine, e, my_eip)
 
             info = l.opmode, l.admode
             machine.eval_instr(mov(info, ecx, ExprOp('-', my_ecx, ExprInt(uint32(1)))))
@@ -157,6 +158,10 @@ def emul_full_expr(e, l, my_eip, env, machine):
 
             if zf_w :
                 my_zf = machine.eval_expr(machine.pool[zf], {})
+                if not isinstance(my_zf, ExprInt):
+                    # the termination test cannot be decided
+                    raise ValueError('Emulation fails for "%s". ZF value is %s'
+                        % (l, str(my_zf)))
                 if 0xF3 in l.prefix and isinstance(my_zf, ExprInt) and my_zf.arg == 0:
                     break
                 if 0xF2 in l.prefix and isinstance(my_zf, ExprInt) and my_zf.arg == 1:
